@@ -1,6 +1,6 @@
 """C10  PGN include/exclude filters are a pure selection of the unfiltered output."""
 from pyvc.report import PropertyRun
-from contracts.decoder_c import DecodeTask
+from contracts.decoder_c import DecodeTask, ClaimPgnTask
 
 
 def main(tier):
@@ -8,6 +8,7 @@ def main(tier):
     for combined in (True, False):
         for claim in (True, False):
             run.add(DecodeTask('C10', combined, claim))
+    run.add(ClaimPgnTask('C10'))
     from props import C10_extra
     C10_extra.add(run, tier)
     run.trust('pyvc models: abstract collections (membership/length uninterpreted), symbolic source map, str.lower as an idempotent uninterpreted function', 'z3 5.1')
